@@ -9,7 +9,7 @@ INVARIANT ImplAgrees
 INVARIANT NoUB
 INVARIANT ImplAgreesOffHazards
 INVARIANT HazardsConfined
-INVARIANT HazardExact
+INVARIANT CropClamped
 INVARIANT MacrosSound
 INVARIANT RefSound
 INVARIANT RefShape
